@@ -198,6 +198,7 @@ def replay(hist, *, stop, adapter, unit="seconds", compress=False, srv=None, tea
                     bad = mism("save-state status", 200, (st, str(d)[:200]))
             elif op == "LoadState":
                 st, d = srv.req("POST", "/load-state")
+                srv.rewatch()
                 if st != 200:
                     bad = mism("load-state status", 200, (st, str(d)[:200]))
             elif op == "Crash":
